@@ -1,5 +1,6 @@
 use crate::error::ServerError;
 use crate::storage::{Snapshot, Storage, StorageTxn};
+#[cfg_attr(feature = "verif", allow(unused_imports))]
 use chrono::Utc;
 use uuid::Uuid;
 
@@ -148,6 +149,8 @@ impl Server {
         parent_version_id: VersionId,
         history_segment: HistorySegment,
     ) -> Result<(AddVersionResult, SnapshotUrgency), ServerError> {
+        #[cfg(feature = "verif")]
+        use crate::verif::{Utc, Uuid};
         log::debug!("add_version(client_id: {client_id}, parent_version_id: {parent_version_id})");
 
         let mut txn = self.storage.txn(client_id)?;
@@ -200,6 +203,8 @@ impl Server {
         version_id: VersionId,
         data: Vec<u8>,
     ) -> Result<(), ServerError> {
+        #[cfg(feature = "verif")]
+        use crate::verif::Utc;
         log::debug!("add_snapshot(client_id: {client_id}, version_id: {version_id})");
 
         let mut txn = self.storage.txn(client_id)?;
